@@ -141,6 +141,11 @@ func (e *epochPool) Renew(sub string) error { return e.a.Renew(bg, sub) }
 func (e *epochPool) Advance() uint64        { return e.a.AdvanceEpoch() }
 func (e *epochPool) Epoch() uint64          { return e.a.GetCurrentEpoch() }
 func (e *epochPool) ValueAt(i int) string   { return addrAt(e.net, -1, i).String() }
+
+// SetAllocation applies a stored / announced record directly (what loadAllocations and handleRemoteChange do).
+func (e *epochPool) SetAllocation(sub, val string) error {
+	return e.a.SetAllocation(sub, net.ParseIP(val))
+}
 func (e *epochPool) Stats() (uint64, uint64, float64, bool) {
 	a, t, u := e.a.Stats()
 	return a, t, u, true
@@ -199,7 +204,7 @@ type distPool struct {
 	unit   int
 	lease  bool
 	echo   bool
-	wait   func() // synctest.Wait supplied by the runner (lease mode runs in a bubble)
+	wait   func()      // synctest.Wait supplied by the runner (lease mode runs in a bubble)
 	tr     *Translator // harness subscriber name <-> the id the allocator and the store see
 }
 
